@@ -418,6 +418,12 @@ class SciPyOptimizer(Optimizer):
 
         if compute_functions or compute_gradients:
             self._cached_variables = variables.copy()
+            # Evaluating a gradient always involves evaluating the functions at
+            # the same point. If these are not available yet, request them as
+            # well, so they are cached (and evaluated separately when
+            # split_evaluations is set), instead of being evaluated again later:
+            if compute_gradients and self._cached_function is None:
+                compute_functions = True
             compute_functions = compute_functions or self._config.optimizer.speculative
             # Methods that do not use gradients should never evaluate them:
             compute_gradients = compute_gradients or (
